@@ -86,6 +86,14 @@ pub const SYMBOLS: &[(&str, Sym)] = &[
     ("enum-struct-variant-all-fields-skipped-tagged", Sym::Item("#[typeshare]\n#[serde(tag = \"t\", content = \"c\")]\npub enum EdgeAfsT { Ready, Running { #[serde(skip)] started_at: u32 } }\n")),
     ("enum-only-empty-tuple-and-struct-variants", Sym::Item("#[typeshare]\npub enum EdgeOnlyEmpty { A {}, B {} }\n")),
     ("struct-all-fields-skipped", Sym::Item("#[typeshare]\npub struct EdgeAllSkipped { #[serde(skip)] pub a: u32, #[typeshare(skip)] pub b: u32 }\n")),
+    // everything inside an item compiled out for the requested target (configuration 3 asks for ios)
+    ("tuple-struct-only-field-cfg-out", Sym::Item("#[typeshare]\npub struct EdgeCo1(#[cfg(target_os = \"android\")] pub String);\n")),
+    ("tuple-struct-first-field-cfg-out", Sym::Item("#[typeshare]\npub struct EdgeCo2(#[cfg(target_os = \"android\")] pub String, pub u32);\n")),
+    ("struct-all-fields-cfg-out", Sym::Item("#[typeshare]\npub struct EdgeCo3 { #[cfg(target_os = \"android\")] pub a: u32, #[cfg(not(target_os = \"ios\"))] pub b: u32 }\n")),
+    ("enum-all-variants-cfg-out", Sym::Item("#[typeshare]\npub enum EdgeCo4 { #[cfg(target_os = \"android\")] A, #[cfg(target_os = \"android\")] B }\n")),
+    ("tagged-enum-all-variants-cfg-out", Sym::Item("#[typeshare]\n#[serde(tag = \"t\", content = \"c\")]\npub enum EdgeCo5 { #[cfg(target_os = \"android\")] A(u32), #[cfg(not(target_os = \"ios\"))] B { x: u32 } }\n")),
+    ("tuple-variant-payload-cfg-out", Sym::Item("#[typeshare]\n#[serde(tag = \"t\", content = \"c\")]\npub enum EdgeCo6 { A(#[cfg(target_os = \"android\")] u32), B }\n")),
+    ("struct-variant-all-fields-cfg-out", Sym::Item("#[typeshare]\n#[serde(tag = \"t\", content = \"c\")]\npub enum EdgeCo7 { A { #[cfg(target_os = \"android\")] x: u32 }, B(u32) }\n")),
     ("enum-discriminants", Sym::Item("#[typeshare]\npub enum EdgeDisc { A = 1, B = 1 << 4 }\n")),
     ("struct-lifetime-const-generics", Sym::Item("#[typeshare]\npub struct EdgeGen<'a, const N: usize, T: Clone = u32> where T: Copy { pub a: &'a T }\n")),
     ("typeshare-on-union", Sym::Item("#[typeshare]\npub union EdgeUnion { a: u32, b: f32 }\n")),
